@@ -11,7 +11,12 @@ ROOT = os.path.dirname(os.path.abspath(__file__))
 
 def main():
     path = sys.argv[1]
-    rp = json.load(open(path))
+    if path == '--native':
+        # run-time check of a scenario instance on native floats: replay.py --native <prop> <scenario> <params json>
+        rp = {'property': sys.argv[2], 'scenario': sys.argv[3], 'params': json.loads(sys.argv[4]), 'engine': 'B',
+              'obligation': '%s/%s[native]' % (sys.argv[2], sys.argv[3]), 'detail': {'values': {}}}
+    else:
+        rp = json.load(open(path))
     repo = os.environ.get('VERIF_REPO') or rp.get('repo') or '/repo'
     sys.path.insert(0, repo)
     sys.path.insert(0, ROOT)
